@@ -27,7 +27,7 @@ static Int gen_exp(ByteSource& in, uint64_t maxbits) {
   return e;
 }
 static Int gen_mod(ByteSource& in, size_t cap, CaseInfo& ci) {
-  size_t n = size_near(in, 1, cap, {REDC_1_TO_REDC_2_THRESHOLD, REDC_2_TO_REDC_N_THRESHOLD, POWM_THRESHOLD, MUL_KARATSUBA_THRESHOLD, 2, 3});
+  size_t n = size_near(in, 1, cap, {REDC_1_TO_REDC_2_THRESHOLD, REDC_2_TO_REDC_N_THRESHOLD, POWM_THRESHOLD, MUL_KARATSUBA_THRESHOLD, 2, 3, BINV_NEWTON_THRESHOLD, 2 * BINV_NEWTON_THRESHOLD});
   Limbs v = limbs_nz(in, n); Int m = Int::from_limbs(v.data(), n);
   unsigned k = in.pick({6, 4, 2, 1, 1});
   if (k == 0) { if (!m.is_odd()) m = m + Int(1); ci.label("mod:odd"); }
@@ -42,7 +42,7 @@ static Int gen_mod(ByteSource& in, size_t cap, CaseInfo& ci) {
 }
 static void case_powm(ByteSource& in, CaseInfo& ci) {
   bool ui = in.chance(70);
-  size_t cap = expcap(in.scale, 3, 260);
+  size_t cap = expcap(in.scale, 3, in.chance(40) ? 720 : 260);   // now and then above BINV_NEWTON_THRESHOLD (default 300) and twice that
   Int M = gen_mod(in, cap, ci);
   // cost bound for the reference square-and-multiply: mod_limbs^2 * exp_bits <= ~3e7
   uint64_t maxbits = (uint64_t)std::min<double>(2200.0, 3e7 / ((double)M.size() * M.size() + 1)); if (maxbits < 8) maxbits = 8; if (ui) maxbits = std::min<uint64_t>(maxbits, 64);
@@ -84,9 +84,22 @@ static void case_pow(ByteSource& in, CaseInfo& ci) {
   REQUIRE_WF(o, "pow_ui"); REQUIRE(int_from_mpz(o) == expect, "%s(exp=%llu): wrong power", uib ? "mpz_ui_pow_ui" : "mpz_pow_ui", (unsigned long long)E);
   if (!uib && !inplace) REQUIRE(int_from_mpz(b) == B, "mpz_pow_ui: base modified");
 }
-static void check(ByteSource& in, CaseInfo& ci) { if (in.pick({3, 2}) == 0) case_powm(in, ci); else case_pow(in, ci); }
+// mpn_binvert (internal, anchor mpn/generic/binvert.c; used by powm/redc set-up, divexact, bdiv): r*u = 1 mod B^n for odd u
+extern "C" void __gmpn_binvert(mp_limb_t*, const mp_limb_t*, long, mp_limb_t*);
+extern "C" long __gmpn_binvert_itch(long);
+static void case_binvert(ByteSource& in, CaseInfo& ci) {
+  size_t cap = expcap(in.scale, 4, 2600); size_t n = size_near(in, 1, cap, {BINV_NEWTON_THRESHOLD, 2 * BINV_NEWTON_THRESHOLD, 4 * BINV_NEWTON_THRESHOLD, 2 * BINV_NEWTON_THRESHOLD + 1, 2, 3});
+  Limbs u = limbs(in, n); u[0] |= 1; ci.label("mpn_binvert"); if (n >= BINV_NEWTON_THRESHOLD) ci.label("binvert:newton"); if (n >= 2) ci.nontrivial = true;
+  ci.d("mpn_binvert n=%zu ", n); DESC(ci, "u=" + show(u, 64));
+  size_t itch = (size_t)__gmpn_binvert_itch((long)n); Guarded r(n), t(itch); Limbs u0 = u;
+  __gmpn_binvert(r.p(), u.data(), (long)n, t.p());
+  REQUIRE(r.intact() && t.intact(), "mpn_binvert(n=%zu): wrote outside the result or the %zu-limb scratch area", n, itch); REQUIRE(u == u0, "mpn_binvert: source modified");
+  Int P = ref::tmod(Int::from_limbs(r.p(), n) * Int::from_limbs(u.data(), n), ref::pow2(64 * n));
+  REQUIRE(P == Int(1), "mpn_binvert(n=%zu): r*u != 1 mod B^n", n);
+}
+static void check(ByteSource& in, CaseInfo& ci) { unsigned k = in.pick({6, 4, 1}); if (k == 0) case_powm(in, ci); else if (k == 1) case_pow(in, ci); else case_binvert(in, ci); }
 namespace eng {
 PropDef g_prop = {"C08",
-  "Cases: mpz_powm / mpz_powm_ui (base of any sign and size incl. 0, |mod|-1, mod, larger than mod; exponent 0,1,.. with patterns all-ones / single bit / alternating / runs; modulus odd, even with 2-adic valuation 1..256 incl. whole zero low limbs, power of two, +-1, 2, negative; sizes around REDC_1/REDC_2/REDC_N/POWM thresholds; negative exponent only with gcd(base,mod)=1 and |mod|>1; result aliasing base/exp/mod) and mpz_pow_ui / mpz_ui_pow_ui (0^0, (+-1)^e with huge e, (+-2^k)^e, negative bases, results up to the scale cap). Oracle: refint square-and-multiply with refint division; result in [0,|mod|). Cost bound mod_limbs^2*exp_bits <= 3e7 (a bound on generated size, not on time). Non-trivial: exponent >= 2 bits and modulus >= 2 limbs / result >= 2 limbs. Distinct = hash of all decoded choices.",
-  check, nullptr, {"mod:odd", "mod:even", "mod:even_zero_low_limb", "mod:pow2", "mod:one", "negative_exponent", "mod_ge_redc_2", "mod_ge_redc_n", "mod_ge_powm_threshold", "zero_pow_zero", "neg_base_odd_exp", "base_gt_mod"}};
+  "Cases: mpz_powm / mpz_powm_ui (base of any sign and size incl. 0, |mod|-1, mod, larger than mod; exponent 0,1,.. with patterns all-ones / single bit / alternating / runs; modulus odd, even with 2-adic valuation 1..256 incl. whole zero low limbs, power of two, +-1, 2, negative; sizes around REDC_1/REDC_2/REDC_N/POWM thresholds and, in 1 of 6 cases, up to 720 limbs around BINV_NEWTON_THRESHOLD and twice it; mpn_binvert called directly (n up to 2600 limbs, r*u = 1 mod B^n, scratch guard); negative exponent only with gcd(base,mod)=1 and |mod|>1; result aliasing base/exp/mod) and mpz_pow_ui / mpz_ui_pow_ui (0^0, (+-1)^e with huge e, (+-2^k)^e, negative bases, results up to the scale cap). Oracle: refint square-and-multiply with refint division; result in [0,|mod|). Cost bound mod_limbs^2*exp_bits <= 3e7 (a bound on generated size, not on time). Non-trivial: exponent >= 2 bits and modulus >= 2 limbs / result >= 2 limbs. Distinct = hash of all decoded choices.",
+  check, nullptr, {"mod:odd", "mod:even", "mod:even_zero_low_limb", "mod:pow2", "mod:one", "negative_exponent", "mod_ge_redc_2", "mod_ge_redc_n", "mod_ge_powm_threshold", "zero_pow_zero", "neg_base_odd_exp", "base_gt_mod", "mpn_binvert", "binvert:newton"}};
 }
